@@ -39,7 +39,8 @@ theorem decode_encode (S : Schema) (hS : S.WF) (v : List Val) (hv : S.Canon v) :
 theorem admit_encode (S : Schema) (hS : S.WF) (v : List Val) : S.admit (S.encode v) = some (S.encode v) := by
   obtain ⟨hok, _, hwf, _⟩ := hS
   have hns := nsOf_mk' S.head S.inh _ (encFs S.fields v).2 hok (encFs_no_xmlns v hwf)
-  simp only [Schema.encode, Head.mk'] at hns ⊢
+  simp only [Schema.encode] at hns ⊢
+  simp only [Head.mk'] at hns
   simp only [Schema.admit]
   split
   · simp [hns, Head.mk', Node.isElem, Node.name]
@@ -88,9 +89,24 @@ theorem wf_ExtendedAddress : ExtendedAddress.WF := by decide
 theorem wf_BindIq : BindIq.WF := by decide
 theorem wf_VersionIq : VersionIq.WF := by decide
 theorem wf_IbbCloseIq : IbbCloseIq.WF := by decide
+theorem wf_SaslAuth : SaslAuth.WF := by decide
+theorem wf_SaslChallenge : SaslChallenge.WF := by decide
+theorem wf_SaslResponse : SaslResponse.WF := by decide
+theorem wf_Sasl2Challenge : Sasl2Challenge.WF := by decide
+theorem wf_Sasl2Response : Sasl2Response.WF := by decide
+theorem wf_Sasl2Continue : Sasl2Continue.WF := by decide
+theorem wf_Hash : Hash.WF := by decide
+theorem wf_MixInvitation : MixInvitation.WF := by decide
+theorem wf_OutOfBandUrl : OutOfBandUrl.WF := by decide
+theorem wf_PubSubAffiliation : PubSubAffiliation.WF := by decide
+theorem wf_SdpParameter : SdpParameter.WF := by decide
+theorem wf_RtpFeedbackInterval : RtpFeedbackInterval.WF := by decide
+theorem wf_TrustMessageKeyOwner : TrustMessageKeyOwner.WF := by decide
+theorem wf_TrustMessageElement : TrustMessageElement.WF := by decide
 /-- `FastFeature` / the SASL 2 stream feature once `tls-0rtt` is written (fixes/C01-fastfeature-tls0rtt.diff) -/
 theorem wf_FastFeature_fixed : FastFeature.WF := by decide
 theorem wf_Sasl2StreamFeature_fixed : Sasl2StreamFeature.WF := by decide
+theorem wf_StreamFeatures_fixed : StreamFeatures.WF := by decide
 
 /-! ## defect of today's code -/
 
@@ -123,6 +139,7 @@ theorem C01_defect_sasl2feature_tls0rtt :
 /-- the generic theorems do not apply to the schemas of the code as it is: they are not well-formed -/
 theorem not_wf_FastFeatureCode : ¬ FastFeatureCode.WF := by decide
 theorem not_wf_Sasl2StreamFeatureCode : ¬ Sasl2StreamFeatureCode.WF := by decide
+theorem not_wf_StreamFeaturesCode : ¬ StreamFeaturesCode.WF := by decide
 
 /-! ## non-vacuity: concrete values meeting the hypotheses -/
 
@@ -139,5 +156,10 @@ example : Sasl2Failure.WF ∧ Sasl2Failure.Canon [.opt (some 9), .record [.str "
 /-- out-of-range values are excluded, not silently accepted -/
 example : ¬ SmAck.Canon [.nat 4294967296] := by decide
 example : ¬ Sasl2Failure.Canon [.opt none, .record [.str []]] := by decide
+/-- Base64 bodies: any byte string, including NUL and 0xFF; a mandatory non-empty list -/
+example : Sasl2Continue.WF ∧ Sasl2Continue.Canon
+    [.record [.str [Char.ofNat 0, Char.ofNat 255, 'M']], .record [.list [.record [.str "a<b".toList]]], .record [.str []]] := by
+  decide
+example : ¬ Sasl2Continue.Canon [.record [.str []], .record [.list []], .record [.str []]] := by decide
 
 end Qx.C01Codec
